@@ -587,6 +587,20 @@ func FiresChecked() int { return 0 }
 
 // jsonUnmarshal is what the executor runs in place of json.Unmarshal: the same uninterpreted parser, with neither
 // UseNumber nor DisallowUnknownFields (Unmarshal cannot apply them).
+// jsonEncode is the model of (*json.Encoder).Encode: the marshalled value followed by a newline goes to the
+// encoder's writer in one Write.
+func jsonEncode(w io.Writer, v interface{}) error {
+	b, err := json.Marshal(v)
+	if err != nil {
+		return err
+	}
+	line := make([]byte, len(b)+1)
+	copy(line, b)
+	line[len(b)] = '\n'
+	_, err = w.Write(line)
+	return err
+}
+
 func jsonUnmarshal(data []byte, v interface{}) error {
 	obj, ok := jsonParse(data, false, false)
 	if !ok {
